@@ -459,6 +459,17 @@ def int_to_bytes_signed_little(x: int, n: int) -> bytes:
     return x.to_bytes(n, "little", signed=True)
 
 
+@axiom("int_to_bytes_little")
+def ax_to_bytes_little_len(x: int, n: int) -> bool:
+    """int.to_bytes(n, ...) has exactly n bytes (whenever it is defined)"""
+    return not (n >= 0 and 0 <= x and x < 2 ** (8 * n)) or len(int_to_bytes_little(x, n)) == n
+
+
+@axiom("int_to_bytes_big")
+def ax_to_bytes_big_len(x: int, n: int) -> bool:
+    return not (n >= 0 and 0 <= x and x < 2 ** (8 * n)) or len(int_to_bytes_big(x, n)) == n
+
+
 @opaque
 def bit_length(x: int) -> int:
     return x.bit_length()
